@@ -266,7 +266,9 @@ Proof. destruct o; cbn [step].
     + cbn. pose proof (heartbeat_check_grows c s) as H. destruct (heartbeat_check c s) as [[[s2 cbs2] hang2] r]. destruct hang2; exact H.
     + pose proof (on_event_grows e s) as H1. destruct (on_event e s) as [[s1 cbs1] hang1]. cbn [fst] in H1. destruct hang1; [exact H1|].
       pose proof (heartbeat_check_grows c s1) as H. destruct (heartbeat_check c s1) as [[[s2 cbs2] hang2] r]. cbn [fst] in H.
-      destruct hang2; cbn [fst]; eapply grows_trans; eauto. Qed.
+      destruct hang2; cbn [fst]; eapply grows_trans; eauto.
+  - unfold do_close_handle. destruct k; try apply grows_refl; destruct (user_obj _ r s); cbn [fst]; try apply grows_refl;
+      (apply grows_scalar; [intros kk; destruct kk|]; reflexivity). Qed.
 
 (* the registration (k, r) is gone: no entry, and the id is below the counter (it will not be handed out again) *)
 Definition gone (k : kind) (r : Z) (s : st) : Prop := lookup r (getm k s) = None /\ r < next_corr s.
